@@ -16,8 +16,14 @@ import Upa.Props.C08
 namespace Upa.Props
 open Upa Upa.Impl
 open Upa.Proofs.C01 (ovState resOf)
-open Upa.Proofs.C03 (RecOk)
+open Upa.Proofs.C03 (RecOk RecInv IdnaNonEmpty emptyIdna)
 open Upa.Proofs.C08 (IdnaCanon sampleIdna sampleIdna_canon)
+
+/-- "http://u:p@h:81/a/b?q#f" (the start record of the examples) -/
+def c03Start : Url :=
+  { scheme := asciiStr "http", username := asciiStr "u", password := asciiStr "p",
+    host := some ⟨.domain, asciiStr "h"⟩, port := some 81, path := [asciiStr "a", asciiStr "b"],
+    query := some (asciiStr "q"), fragment := some (asciiStr "f") }
 
 /-! ### 1. the state-override entry points of `url_parse`, as full pairs -/
 
@@ -45,12 +51,58 @@ theorem C03_override_entry_query_fragment (idna : Idna) (u : Url) (inp : List Na
       resOf (some .fragment) (Impl.urlParse idna none (some .fragment) u inp) :=
   ⟨Proofs.C03.entry_query_reset u inp hsc, Proofs.C03.entry_fragment_reset u inp hsc⟩
 
+/-- the same with the precondition instead of the reset: query null or empty, fragment empty -/
+theorem C03_override_entry_query_fragment_pre (idna : Idna) (u : Url) (inp : List Nat)
+    (hsc : ∀ x ∈ inp, Spec.isScalar x = true) :
+    (u.query.getD [] = [] → Spec.basicParse idna inp none u (some .query) =
+      resOf (some .query) (Impl.urlParse idna none (some .query) u inp)) ∧
+    (u.fragment = some [] → Spec.basicParse idna inp none u (some .fragment) =
+      resOf (some .fragment) (Impl.urlParse idna none (some .fragment) u inp)) :=
+  ⟨Proofs.C03.entry_query u inp hsc, Proofs.C03.entry_fragment u inp hsc⟩
+
+-- port "8080" / "99999" (failure, URL untouched) / "80" (default port of http: port removed), both sides
+example : ∀ x ∈ asciiStr "99999", Spec.isScalar x = true := by decide +kernel
+example :
+    Spec.basicParse C07_stubIdna (asciiStr "8080") none c03Start (some .port) =
+      (some { c03Start with port := some 8080 }, { c03Start with port := some 8080 }) ∧
+    resOf (some .port) (Impl.urlParse C07_stubIdna none (some .port) c03Start (asciiStr "8080")) =
+      (some { c03Start with port := some 8080 }, { c03Start with port := some 8080 }) ∧
+    Spec.basicParse C07_stubIdna (asciiStr "99999") none c03Start (some .port) = (none, c03Start) ∧
+    resOf (some .port) (Impl.urlParse C07_stubIdna none (some .port) c03Start (asciiStr "99999")) = (none, c03Start) ∧
+    Spec.basicParse C07_stubIdna (asciiStr "80") none c03Start (some .port) =
+      (some { c03Start with port := none }, { c03Start with port := none }) ∧
+    resOf (some .port) (Impl.urlParse C07_stubIdna none (some .port) c03Start (asciiStr "80")) =
+      (some { c03Start with port := none }, { c03Start with port := none }) := by decide +kernel
+-- query "k=v w" on the record with the query emptied / path start "/../c d"
+example :
+    Spec.basicParse C07_stubIdna (asciiStr "k=v w") none { c03Start with query := some [] } (some .query) =
+      (some { c03Start with query := some (asciiStr "k=v%20w") }, { c03Start with query := some (asciiStr "k=v%20w") }) ∧
+    resOf (some .query) (Impl.urlParse C07_stubIdna none (some .query) c03Start (asciiStr "k=v w")) =
+      (some { c03Start with query := some (asciiStr "k=v%20w") }, { c03Start with query := some (asciiStr "k=v%20w") }) ∧
+    Spec.basicParse C07_stubIdna (asciiStr "/../c d") none { c03Start with path := [] } (some .pathStart) =
+      (some { c03Start with path := [asciiStr "c%20d"] }, { c03Start with path := [asciiStr "c%20d"] }) := by
+  decide +kernel
+
 /-- protocol: the Standard parses `value ++ ":"` from the scheme start state, the code takes the end
     of the value for the colon; same ignore rules, same default-port reset, same failures (any input) -/
 theorem C03_override_entry_scheme (idna : Idna) (u : Url) (hok : RecOk u = true) (inp : List Nat) :
     Spec.basicParse idna (inp ++ [0x3A]) none u (some .schemeStart) =
       resOf (some .schemeStart) (Impl.urlParse idna none (some .schemeStart) u inp) :=
   Proofs.C03.sim_scheme_ov idna u hok inp
+
+-- "WSS" (+ ":"): scheme replaced; "file": ignored (credentials and port); "w s": failure
+example :
+    Spec.basicParse C07_stubIdna (asciiStr "WSS" ++ [0x3A]) none c03Start (some .schemeStart) =
+      (some { c03Start with scheme := asciiStr "wss" }, { c03Start with scheme := asciiStr "wss" }) ∧
+    resOf (some .schemeStart) (Impl.urlParse C07_stubIdna none (some .schemeStart) c03Start (asciiStr "WSS")) =
+      (some { c03Start with scheme := asciiStr "wss" }, { c03Start with scheme := asciiStr "wss" }) ∧
+    Spec.basicParse C07_stubIdna (asciiStr "file" ++ [0x3A]) none c03Start (some .schemeStart) =
+      (some c03Start, c03Start) ∧
+    resOf (some .schemeStart) (Impl.urlParse C07_stubIdna none (some .schemeStart) c03Start (asciiStr "file")) =
+      (some c03Start, c03Start) ∧
+    Spec.basicParse C07_stubIdna (asciiStr "w s" ++ [0x3A]) none c03Start (some .schemeStart) = (none, c03Start) ∧
+    resOf (some .schemeStart) (Impl.urlParse C07_stubIdna none (some .schemeStart) c03Start (asciiStr "w s")) =
+      (none, c03Start) := by decide +kernel
 
 /-! ### 2. the ten setters -/
 
@@ -68,6 +120,22 @@ theorem C03_ignored_unchanged :
       UnitsOk e units → RecOk u = true →
       Spec.apiSet idna s e units u = u → (Impl.setValid idna s e units u).1 = u :=
   fun idna h s e units u hu hok hig => (C03_setter_conforms idna h s e units u hu hok).trans hig
+
+/-- `RecOk` is exactly the condition: a record satisfies it iff every setter call on it conforms
+    (on a record violating it, protocol "http" or username "a" / "b" separates code and Standard) -/
+theorem C03_recok_exact :
+    ∀ idna, IdnaOk idna → ∀ u : Url,
+      (RecOk u = true ↔ ∀ (s : Setter) (e : Enc) (units : List Nat), UnitsOk e units →
+        (Impl.setValid idna s e units u).1 = Spec.apiSet idna s e units u) := by
+  intro idna h u
+  constructor
+  · exact fun hok s e units hu => C03_setter_conforms idna h s e units u hu hok
+  · intro hall
+    cases hr : RecOk u with
+    | true => rfl
+    | false =>
+      obtain ⟨s, units, hu, hd⟩ := Proofs.C03.recOk_necessary idna u hr
+      exact absurd (hall s .u8 units hu) hd
 
 /-- canonical records (C08: everything the parser and the setters produce) satisfy `RecOk` -/
 theorem C03_canon_recok (u : Url) (h : Impl.Canon u = true) : RecOk u = true := by
@@ -89,48 +157,64 @@ theorem C03_canon_recok (u : Url) (h : Impl.Canon u = true) : RecOk u = true := 
 
 /-! ### 3. call sequences -/
 
-/-- The setters keep the record inside `RecOk`.  Stated for canonical records (C08): `RecOk` itself is
-    the weakest condition for ONE call and is not an invariant — `{scheme := "http", host := null}`
-    satisfies it, the protocol setter turns it into `{scheme := "file", host := null}`, which does not
-    (example below); and it is kept only if ToASCII never returns the empty string (`IdnaCanon.out_ascii`;
-    `IdnaOk` does not say that).  Hypotheses added w.r.t. the plain statement: `IdnaCanon idna` and
-    `Canon u` in place of `RecOk u`. -/
-theorem C03_recok_preserved_partial :
-    ∀ idna, IdnaCanon idna → ∀ (s : Setter) (e : Enc) (units : List Nat) (u : Url),
-      Impl.Canon u = true →
-      Impl.Canon (Impl.setValid idna s e units u).1 = true ∧ RecOk (Impl.setValid idna s e units u).1 = true :=
-  fun idna hc s e units u h =>
-    ⟨C08_set_canon idna hc s e units u h, C03_canon_recok _ (C08_set_canon idna hc s e units u h)⟩
+/-- `RecInv` (Upa/Proofs/SettersInv.lean): a special URL has a host, and a host whose serialization
+    is empty is the empty host.  It implies `RecOk` … -/
+theorem C03_recinv_recok (u : Url) (h : RecInv u = true) : RecOk u = true := Proofs.C03.RecInv.recOk h
 
-/-- every sequence of setter calls on a canonical URL (in particular on every parsed URL, C08) leaves
-    the URL the Standard's setters leave.  Hypotheses added w.r.t. the plain statement: `IdnaCanon idna`,
-    and `Canon u` in place of `RecOk u` (see `C03_recok_preserved_partial`). -/
+/-- … holds of every canonical record (C08) … -/
+theorem C03_canon_recinv (u : Url) (h : Impl.Canon u = true) : RecInv u = true := Proofs.C03.canon_recInv u h
+
+/-- … and of every URL the parser returns, provided ToASCII never returns the empty string
+    (`IdnaNonEmpty idna := ∀ s r, idna s = some r → r ≠ []`; implied by `IdnaCanon` of C08) -/
+theorem C03_parse_recinv :
+    ∀ idna, IdnaNonEmpty idna → ∀ (e : Enc) (units : List Nat) (u : Url),
+      Impl.parse idna e units none = some u → RecInv u = true :=
+  fun _ hi e units u h => Proofs.C03.parse_recInv hi e units u h
+
+/-- The setters keep the record inside `RecOk`.  `RecOk` itself is the weakest condition for ONE call
+    and is not an invariant — `{scheme := "http", host := null}` satisfies it, the protocol setter turns
+    it into `{scheme := "file", host := null}`, which does not (example below) — so this is stated for the
+    invariant `RecInv` (adds: a special URL has a host); and ToASCII must never return the empty string
+    (`IdnaNonEmpty`; `IdnaOk` does not say that: `emptyIdna` below).  Holds also when the setter reports
+    failure.  Hypotheses changed w.r.t. the plain statement: `IdnaNonEmpty idna` added, `RecInv` for `RecOk`. -/
+theorem C03_recok_preserved_partial :
+    ∀ idna, IdnaNonEmpty idna → ∀ (s : Setter) (e : Enc) (units : List Nat) (u : Url),
+      RecInv u = true →
+      RecInv (Impl.setValid idna s e units u).1 = true ∧ RecOk (Impl.setValid idna s e units u).1 = true :=
+  fun _ hi s e units u h =>
+    ⟨Proofs.C03.setValid_recInv hi s e units u h, C03_recinv_recok _ (Proofs.C03.setValid_recInv hi s e units u h)⟩
+
+/-- every sequence of setter calls leaves the URL the Standard's setters leave.
+    Hypotheses changed w.r.t. the plain statement: `IdnaNonEmpty idna` added, `RecInv u` for `RecOk u`
+    (see `C03_recok_preserved_partial`; the plain statement is false, examples in section 5). -/
 theorem C03_history_partial :
+    ∀ idna, IdnaOk idna → IdnaNonEmpty idna → ∀ (calls : List (Setter × Enc × List Nat)) (u : Url),
+      (∀ c ∈ calls, UnitsOk c.2.1 c.2.2) → RecInv u = true →
+      calls.foldl (fun u c => (Impl.setValid idna c.1 c.2.1 c.2.2 u).1) u =
+        calls.foldl (fun u c => Spec.apiSet idna c.1 c.2.1 c.2.2 u) u :=
+  fun _ h hi calls u hu hinv =>
+    Proofs.C03.history_of_inv h (fun u => RecInv u = true) C03_recinv_recok
+      (fun s e units u _ hj => Proofs.C03.setValid_recInv hi s e units u hj) calls u hu hinv
+
+/-- in particular for every URL obtained by parsing, and for every canonical URL -/
+theorem C03_history_parsed :
+    ∀ idna, IdnaOk idna → IdnaNonEmpty idna → ∀ (e0 : Enc) (units0 : List Nat) (u : Url),
+      Impl.parse idna e0 units0 none = some u →
+      ∀ calls : List (Setter × Enc × List Nat), (∀ c ∈ calls, UnitsOk c.2.1 c.2.2) →
+      calls.foldl (fun u c => (Impl.setValid idna c.1 c.2.1 c.2.2 u).1) u =
+        calls.foldl (fun u c => Spec.apiSet idna c.1 c.2.1 c.2.2 u) u :=
+  fun idna h hi e0 units0 u hp calls hu =>
+    C03_history_partial idna h hi calls u hu (C03_parse_recinv idna hi e0 units0 u hp)
+
+theorem C03_history_canon :
     ∀ idna, IdnaOk idna → IdnaCanon idna → ∀ (calls : List (Setter × Enc × List Nat)) (u : Url),
       (∀ c ∈ calls, UnitsOk c.2.1 c.2.2) → Impl.Canon u = true →
       calls.foldl (fun u c => (Impl.setValid idna c.1 c.2.1 c.2.2 u).1) u =
         calls.foldl (fun u c => Spec.apiSet idna c.1 c.2.1 c.2.2 u) u :=
   fun idna h hc calls u hu hcan =>
-    Proofs.C03.history_of_inv h (fun u => Impl.Canon u = true) C03_canon_recok
-      (fun s e units u _ hj => C08_set_canon idna hc s e units u hj) calls u hu hcan
-
-/-- in particular for every URL obtained by parsing -/
-theorem C03_history_parsed :
-    ∀ idna, IdnaOk idna → IdnaCanon idna → ∀ (e0 : Enc) (units0 : List Nat) (u : Url),
-      Impl.parse idna e0 units0 none = some u →
-      ∀ calls : List (Setter × Enc × List Nat), (∀ c ∈ calls, UnitsOk c.2.1 c.2.2) →
-      calls.foldl (fun u c => (Impl.setValid idna c.1 c.2.1 c.2.2 u).1) u =
-        calls.foldl (fun u c => Spec.apiSet idna c.1 c.2.1 c.2.2 u) u :=
-  fun idna h hc e0 units0 u hp calls hu =>
-    C03_history_partial idna h hc calls u hu (C08_parse_canon idna hc e0 units0 none u (Or.inl rfl) hp)
+    C03_history_partial idna h (Proofs.C03.IdnaNonEmpty.of_canon hc) calls u hu (C03_canon_recinv u hcan)
 
 /-! ### 4. non-vacuity: concrete instances, both sides evaluated by the kernel -/
-
-/-- "http://u:p@h:81/a/b?q#f" -/
-def c03Start : Url :=
-  { scheme := asciiStr "http", username := asciiStr "u", password := asciiStr "p",
-    host := some ⟨.domain, asciiStr "h"⟩, port := some 81, path := [asciiStr "a", asciiStr "b"],
-    query := some (asciiStr "q"), fragment := some (asciiStr "f") }
 
 theorem c03_units (s : String) (h : ∀ x ∈ asciiStr s, x < 256) : UnitsOk .u8 (asciiStr s) := h
 
@@ -138,9 +222,10 @@ theorem c03_units (s : String) (h : ∀ x ∈ asciiStr s, x < 256) : UnitsOk .u8
 example : IdnaOk C07_stubIdna := C07_stubIdna_ok
 example : Impl.parse C07_stubIdna .u8 (asciiStr "http://u:p@h:81/a/b?q#f") none = some c03Start := by
   decide +kernel
-example : RecOk c03Start = true ∧ Impl.Canon c03Start = true := by decide +kernel
+example : RecOk c03Start = true ∧ RecInv c03Start = true ∧ Impl.Canon c03Start = true := by decide +kernel
 example : UnitsOk .u8 (asciiStr "x.y:443") := c03_units _ (by decide +kernel)
-example : IdnaOk sampleIdna ∧ IdnaCanon sampleIdna := ⟨Proofs.C03.sampleIdna_ok, sampleIdna_canon⟩
+example : IdnaOk sampleIdna ∧ IdnaCanon sampleIdna ∧ IdnaNonEmpty sampleIdna :=
+  ⟨Proofs.C03.sampleIdna_ok, sampleIdna_canon, Proofs.C03.IdnaNonEmpty.of_canon sampleIdna_canon⟩
 
 -- protocol "https" (and "https:8080" stops at the first ':'; "1a" fails; "file" is ignored: credentials)
 example : (Impl.setValid C07_stubIdna .protocol .u8 (asciiStr "https") c03Start).1 = { c03Start with scheme := asciiStr "https" } ∧
@@ -212,7 +297,8 @@ def c03End : Url :=
 example : c03Calls.foldl (fun u c => (Impl.setValid sampleIdna c.1 c.2.1 c.2.2 u).1) c03Start = c03End ∧
     Impl.serialize c03End = asciiStr "https://a%20b:p@x.y/c%20d?k=v%20w" := by decide +kernel
 example : c03Calls.foldl (fun u c => Spec.apiSet sampleIdna c.1 c.2.1 c.2.2 u) c03Start = c03End := by
-  rw [← C03_history_partial sampleIdna Proofs.C03.sampleIdna_ok sampleIdna_canon c03Calls c03Start
+  rw [← C03_history_partial sampleIdna Proofs.C03.sampleIdna_ok
+    (Proofs.C03.IdnaNonEmpty.of_canon sampleIdna_canon) c03Calls c03Start
     (Proofs.C03.unitsOk_u8_calls _ (by decide +kernel)) (by decide +kernel)]
   decide +kernel
 
@@ -243,10 +329,50 @@ example : RecOk { scheme := sHttp, path := [[]] } = true ∧
 
 #print axioms C03_override_entry
 #print axioms C03_override_entry_query_fragment
+#print axioms C03_override_entry_query_fragment_pre
 #print axioms C03_override_entry_scheme
 #print axioms C03_setter_conforms
 #print axioms C03_ignored_unchanged
+#print axioms C03_recok_exact
 #print axioms C03_canon_recok
+-- `IdnaOk` alone does not suffice for histories: `emptyIdna` satisfies it; hostname "é" then stores a
+-- domain host with an empty serialization (no longer `RecOk`), and the username setter that follows
+-- separates code (refuses: host text empty) and Standard (sets it: host is not the empty host)
+example : IdnaOk emptyIdna := Proofs.C03.emptyIdna_ok
+example : RecInv c03Start = true ∧
+    RecOk (Impl.setValid emptyIdna .hostname .u32 [0xE9] c03Start).1 = false ∧
+    [(Setter.hostname, Enc.u32, [0xE9]), (Setter.username, Enc.u8, [0x61])].foldl
+      (fun u c => (Impl.setValid emptyIdna c.1 c.2.1 c.2.2 u).1) c03Start =
+      { c03Start with host := some ⟨.domain, []⟩ } ∧
+    [(Setter.hostname, Enc.u32, [0xE9]), (Setter.username, Enc.u8, [0x61])].foldl
+      (fun u c => Spec.apiSet emptyIdna c.1 c.2.1 c.2.2 u) c03Start =
+      { c03Start with host := some ⟨.domain, []⟩, username := [0x61] } := by
+  have step1 : (Impl.setValid emptyIdna .hostname .u32 [0xE9] c03Start).1 =
+      { c03Start with host := some ⟨.domain, []⟩ } := by
+    have hs : ∀ f : Idna, (Impl.setValid f .hostname .u32 [0xE9] c03Start).1 =
+        match parseHost f [0xE9] false with
+        | none => c03Start
+        | some h => { c03Start with host := some h } := by
+      intro f
+      have h1 : (Impl.setValid f .hostname .u32 [0xE9] c03Start).1 =
+          (hostState f (some .hostname) c03Start [0xE9]).url := rfl
+      have h2 : hostState f (some .hostname) c03Start [0xE9] = match parseHost f [0xE9] false with
+        | none => ⟨.failure, c03Start⟩
+        | some h => ⟨.ok, { c03Start with host := some h }⟩ := rfl
+      rw [h1, h2]
+      cases parseHost f [0xE9] false <;> rfl
+    rw [hs, Proofs.C03.emptyIdna_host]
+  have step1s : Spec.apiSet emptyIdna .hostname .u32 [0xE9] c03Start =
+      { c03Start with host := some ⟨.domain, []⟩ } := by
+    rw [← C03_setter_conforms _ Proofs.C03.emptyIdna_ok .hostname .u32 _ _ trivial (by decide +kernel), step1]
+  simp only [List.foldl_cons, List.foldl_nil]
+  rw [step1, step1s]
+  decide +kernel
+
+#print axioms C03_recinv_recok
+#print axioms C03_canon_recinv
+#print axioms C03_parse_recinv
+#print axioms C03_history_canon
 #print axioms C03_recok_preserved_partial
 #print axioms C03_history_partial
 #print axioms C03_history_parsed
